@@ -505,3 +505,78 @@ Example cb_report_twice_needs_commit_twice :
   let G := cgrun (mkCfg [] []) ths [0; 0; 1; 1; 2; 2]%nat (cginit (init 1000) ths) in
   call_done G = true /\ nodup_changes (ccbs G) = false /\ ccbs G = slog (cst G).
 Proof. vm_compute. repeat split. Qed.
+
+(* ---------- KSchedW: concurrent calls with per-call fallback/factory outcomes ---------- *)
+From SC Require Import Router.RouterCbW Router.RouterCbWProofs.
+
+Lemma invoke_w_fst : forall b x, fst (invoke_w b x) = if b then yields x else None.
+Proof. intros [|] [| |c|c]; cbn; auto. destruct (c =? nil_client); reflexivity. Qed.
+
+Lemma cgstepW_len : forall o ths G i, List.length (cpcs (cgstepW o ths G i)) = List.length (cpcs G).
+Proof.
+  intros o ths G i. unfold cgstepW. destruct (nth_error ths i); auto. destruct (nth_error (cpcs G) i); auto.
+  destruct (cstepW o w c (cst G) (ccbs G)) as [[s' cbs'] p']. cbn. apply upd_length.
+Qed.
+Lemma cgrunW_len : forall o ths sched G, List.length (cpcs (cgrunW o ths sched G)) = List.length (cpcs G).
+Proof.
+  intros o ths sched. induction sched as [|i sched IH]; intros G; cbn; auto.
+  fold (cgrunW o ths sched (cgstepW o ths G i)). rewrite IH. apply cgstepW_len.
+Qed.
+
+Lemma all2_nth : forall {A B} (f : A -> B -> bool) l1 l2, List.length l1 = List.length l2 ->
+  (forall i a b, nth_error l1 i = Some a -> nth_error l2 i = Some b -> f a b = true) -> all2 f l1 l2 = true.
+Proof.
+  intros A B f l1. induction l1 as [|a l1 IH]; intros [|b l2] Hl H; cbn in *; try discriminate; auto.
+  rewrite (H 0%nat a b eq_refl eq_refl). cbn. apply IH; [lia|]. intros i a' b' Ha Hb. apply (H (S i)); assumption.
+Qed.
+
+Lemma same_getw_name_spec : forall ths n, same_getw_name ths = Some n ->
+  forall k, In k ths -> exists fbo fao, k = WTGet n fbo fao.
+Proof.
+  intros ths n H. unfold same_getw_name in H. destruct ths as [|[m fbo fao| |] r]; try discriminate.
+  destruct (forallb _ r) eqn:E; [|discriminate]. inversion H; subst m.
+  intros k [<-|Hk]; [eauto|]. rewrite forallb_forall in E. specialize (E k Hk).
+  destruct k as [m f1 f2| |]; try discriminate. apply String.eqb_eq in E. subst. eauto.
+Qed.
+
+Theorem judge_agrees_ok_schedw : forall o ths sched obs cbs final,
+  agrees (KSchedW o ths sched obs cbs final) = true -> C12_ok (KSchedW o ths sched obs cbs final) = true.
+Proof.
+  intros o ths sched obs cbs final. cbn [agrees C12_ok]. unfold schedw_ok.
+  set (G := cgrunW o ths sched (cginitW (init 1) ths)).
+  destruct (cpcs_results (cpcs G)) as [rs|] eqn:Er; [|discriminate].
+  destruct (cpcs_results_spec _ _ Er) as [Hpcs Hdone].
+  intros H. apply andb_true_iff in H. destruct H as [H H3]. apply andb_true_iff in H. destruct H as [H1 H2].
+  apply (list_eqb_eq rres_eqb rres_eqb_eq) in H1. apply (list_eqb_eq change_eqb change_eqb_eq) in H2. subst obs cbs.
+  destruct (callbacks_are_transitions_W o ths (init 1) sched) as [_ HP]. fold G in HP. specialize (HP Hdone).
+  rewrite (perm_eqb_complete _ _ (Permutation_sym HP)). cbn [andb].
+  destruct (same_getw_name ths) as [n|] eqn:Esn; [|reflexivity].
+  pose proof (same_getw_name_spec _ _ Esn) as Hall.
+  destruct (single_commit_W o n ths (init 1) Hall eq_refl sched) as [Hlog [_ [Hc [Hd He]]]]. fold G in Hlog, Hc, Hd, He.
+  rewrite (He Hdone), Hlog. cbn [init slog app].
+  assert (Hlen : List.length ths = List.length rs).
+  { rewrite <- (map_length CDone rs), <- Hpcs. unfold G. rewrite cgrunW_len. unfold cginitW. cbn. rewrite map_length. reflexivity. }
+  assert (Hres : forall commit, commit = find n (sreg (cst G)) -> all2 (getw_res_ok o commit) ths rs = true).
+  { intros commit ->. apply all2_nth; auto. intros i k r Hk Hr.
+    destruct (Hall k (nth_error_In _ _ Hk)) as [fbo [fao ->]].
+    assert (Hp : nth_error (cpcs G) i = Some (CDone r)) by (rewrite Hpcs, nth_error_map, Hr; reflexivity).
+    unfold getw_res_ok, fb_yield, fac_yield. rewrite <- !invoke_w_fst.
+    destruct (Hd i r fbo fao Hp Hk) as [[c [-> Hf]]|[[c [-> Hf]]|[-> [Hf1 Hf2]]]].
+    - rewrite Hf. cbn. rewrite Z.eqb_refl. reflexivity.
+    - rewrite Hf. cbn [option_eqb]. rewrite Z.eqb_refl. apply orb_true_r.
+    - rewrite Hf1, Hf2. reflexivity. }
+  destruct (find n (sreg (cst G))) as [c|] eqn:Ecm; cbn [auto_entry].
+  - cbn [cauto cname cold cnew]. rewrite String.eqb_refl, Z.eqb_refl. cbn [andb].
+    rewrite (Hres (Some c) eq_refl).
+    apply andb_true_iff. split; [apply andb_true_iff; split; [|reflexivity]|].
+    + destruct (Hc c eq_refl) as [i [fbo [fao [Hk [Hf1 Hf2]]]]].
+      apply existsb_exists. exists (WTGet n fbo fao). split; [eapply nth_error_In; eauto|].
+      unfold fb_yield, fac_yield. rewrite <- !invoke_w_fst, Hf1, Hf2. cbn. apply Z.eqb_refl.
+    + apply forallb_forall. intros [k v] Hin. rewrite forallb_forall in H3. specialize (H3 (k, v) Hin). cbn [fst snd] in *.
+      destruct (String.eqb k n) eqn:En; auto. apply String.eqb_eq in En. subst k. rewrite Ecm in H3. cbn in H3.
+      cbn. rewrite Z.eqb_sym. exact H3.
+  - rewrite (Hres None eq_refl). cbn [andb].
+    apply forallb_forall. intros [k v] Hin. rewrite forallb_forall in H3. specialize (H3 (k, v) Hin). cbn [fst snd] in *.
+    destruct (String.eqb k n) eqn:En; auto. apply String.eqb_eq in En. subst k. rewrite Ecm in H3. cbn in H3.
+    cbn. rewrite Z.eqb_sym. exact H3.
+Qed.
